@@ -1,7 +1,7 @@
 (* DriverModel.v — the transcripts the correspondence check compares: for each family of driver case
    the model computes exactly the observables the C++ driver prints.  Executable; extracted. *)
 From Coq Require Import ZArith List Bool.
-From MdspanVerif Require Import MachInt ListAux Layouts Extents Convert View MdArray Submdspan SubSpec Concurrency.
+From MdspanVerif Require Import MachInt ListAux Layouts Extents Convert View MdArray Submdspan SubSpec Concurrency ObjLayout.
 Import ListNotations.
 Local Open Scope Z_scope.
 
@@ -255,15 +255,15 @@ Definition pentry := (nat * entry)%type.
 Definition p_mapping (ty : ptype) (es ss : list Z) : mapping :=
   match pt_lay ty with 0%nat => MLeft es | 1%nat => MRight es | _ => MStride es ss end.
 
-(* constructor kinds: 0 (h, dynamic extents...)  1 (h, all extents...)  2 (h, array of dynamic)  3 (h, array of all)
+(* constructor kinds: 0 (h, dynamic extents...)  1 (h, all extents...)  2 (h, array of dynamic)  3 (h, array of all)  9 / 10 (h, span of dynamic / of all)  8 (h, second mapping value, accessor)
    5 (h, extents)  6 (h, mapping)  7 (h, mapping, accessor) *)
 Definition p_ctor (ty : ptype) (kind : nat) (h : Z) (es ss es2 ss2 : list Z) : res entry :=
   let t := pt_t ty in
   let acc := if Nat.eqb (pt_acc ty) 0 then AccDefault else AccUser (10 + h) in
   match kind with
-  | 0%nat | 2%nat => rmap (fun e => mkentry (en_t e) (en_pat e) (mkview h (v_map (en_view e)) acc))
+  | 0%nat | 2%nat | 9%nat => rmap (fun e => mkentry (en_t e) (en_pat e) (mkview h (v_map (en_view e)) acc))
                       (ctor_from_values t (pt_pat ty) (fun x => p_mapping ty x ss) h false (pick_dyn_vals (pt_pat ty) es))
-  | 1%nat | 3%nat => rmap (fun e => mkentry (en_t e) (en_pat e) (mkview h (v_map (en_view e)) acc))
+  | 1%nat | 3%nat | 10%nat => rmap (fun e => mkentry (en_t e) (en_pat e) (mkview h (v_map (en_view e)) acc))
                       (ctor_from_values t (pt_pat ty) (fun x => p_mapping ty x ss) h true es)
   | 8%nat => Ok (ctor_from_mapping t (pt_pat ty) h (p_mapping ty (ext_values t (pt_pat ty) es2) ss2) acc)   (* the second mapping value *)
   | _ => Ok (ctor_from_mapping t (pt_pat ty) h (p_mapping ty (ext_values t (pt_pat ty) es) ss) acc)
@@ -388,3 +388,12 @@ Definition t_threads (sv : mval) (ders : list (list (list slice))) (progs : list
       end
     end
   end.
+
+(* ---- family L: object layout (C18) ------------------------------------------------------------------ *)
+Definition l_layout (t : ity) (lay : nat) (pat : pattern) (pv : option Z) (acc : nat) : list tval :=
+  let E := c_extents t pat in
+  let M := c_mapping lay t pat pv in
+  let MD := c_mdspan (Scalar 8) M (c_accessor acc) in
+  let b2z (b : bool) := if b then 1 else 0 in
+  [ TL (Ok [Z.of_nat (sizeof E); b2z (is_empty E); Z.of_nat (sizeof M); b2z (is_empty M); Z.of_nat (sizeof MD); b2z (is_empty MD)]);
+    TL (Ok [b2z (triv_copyable E); b2z (triv_copyable M); b2z (triv_copyable (c_accessor acc)); b2z (triv_copyable MD)]) ].
